@@ -130,8 +130,8 @@ Definition report {A} (r : outcome (A * list nonfinite)) (trace : list (string *
 (* try_as_spdc on recorded oracle answers, compared with the implementation's setup (when it built one) *)
 Definition run_try_as_spdc (U : units Q) (minpos : Q) (t : otable) (c : spdc_cfg Q) (real : option (spdc Q)) : string :=
   let K := oracles_of_table t in
-  let r := try_as_spdc Q_ops U K minpos cfg_validates_wavelengths c in
-  report r (trace_try_as_spdc Q_ops K minpos cfg_validates_wavelengths c)
+  let r := try_as_spdc Q_ops U K minpos cfg_rejects_bad_period cfg_validates_wavelengths c in
+  report r (trace_try_as_spdc Q_ops K minpos cfg_rejects_bad_period cfg_validates_wavelengths c)
          (match r, real with Ok (s, nf), Some rs => check_spdc s nf rs | _, _ => [] end).
 
 (* try_as_optimum likewise *)
